@@ -2017,7 +2017,23 @@ class ExpressionEvaluator(Parser):
         # Convert from character literals to integer value.
         try:
             constant = self.match_type(CharacterConstant)
-            return np.int64(ord(constant.token))
+            char = constant.token
+            if len(char) == 2 and char[0] == "\\":
+                # Simple escape sequences
+                escapes = {
+                    "0": 0,
+                    "a": 7,
+                    "b": 8,
+                    "t": 9,
+                    "n": 10,
+                    "v": 11,
+                    "f": 12,
+                    "r": 13,
+                }
+                if char[1] in escapes:
+                    return np.int64(escapes[char[1]])
+                char = char[1]
+            return np.int64(ord(char))
         except ParseError:
             self.pos = initial_pos
 
